@@ -61,3 +61,13 @@ Section Sums2.
       eexists. apply is_derive_g; [exact Hs|apply Hx; lra].
   Qed.
 End Sums2.
+
+(** ** the coefficients of the source *)
+Definition n1 : nat -> R := coefR nr1_Q.
+Definition X1 (p : R) : R := Q2R c7_1 - p / Q2R pstar1_Q.
+Definition Y1 (tk : R) : R := Q2R tstar1_Q / tk - Q2R c1_222.
+Definition g1 (tk p : R) : R := - msum_dx n1 (X1 p) (Y1 tk) R1.terms.      (* gamma_pi *)
+Definition gpp (tk p : R) : R := msum_dxx n1 (X1 p) (Y1 tk) R1.terms.      (* gamma_pipi *)
+
+(** everything down to numerals, + - * / and powerRZ with literal exponents: what [interval] reads *)
+Ltac expose1 := unfold g1, gpp, X1, Y1; cbv - [Rplus Rmult Rminus Rdiv Ropp Rinv IZR powerRZ Rle Rlt].
